@@ -46,7 +46,11 @@ def flow(tier, seed, only=None):
     gv.coq_eval = _coq_eval_small
     chk = gv.Check(PROP, tier, seed, level="proof")
     proof = gv.proof_status(PROP, REQ_PROPS)
-    ncases = 1200 if tier == "quick" else 12000
+    ncases = 600 if tier == "quick" else 6000
+    # development aids (never set by the registered commands): run one phase only / another number of random cases
+    only = only or gv.os.environ.get("C20_ONLY")
+    if gv.os.environ.get("C20_CASES"):
+        ncases = int(gv.os.environ["C20_CASES"])
     ok, out, binp = gv.cargo_build("c20")
     if not ok:
         chk.violation("build", {"what": "the harness no longer builds against /repo's working tree", "log": out[-3000:],
@@ -111,6 +115,7 @@ def run(tier, seed):
 
 def replay(path, tier, seed):
     """Prints the replay file; a scheduler case is re-run (same programs, same schedule) through the implementation and the model."""
+    path = gv.os.path.abspath(path)
     print(open(path).read())
     data = gv.json.load(open(path))
     inp = str(data.get("input") or "")
